@@ -113,6 +113,8 @@ static inline void putField(Bytes& img, int off, int width, int shift, int bits,
 template <class T>
 static T background(const tbl::Cls<T>& c, int bg, int extra)
 {
+    if (bg == 4)
+        return c.consistent(extra);
     if (c.makeBg)
         return c.makeBg(bg);
     if (bg == 0)
@@ -184,9 +186,11 @@ static void c11Field(W& w, const tbl::Cls<T>& c, size_t fi, int onlyBg = -1, int
     const auto& f = c.fields[fi];
     std::vector<uint64_t> vals = single ? std::vector<uint64_t>{sv} : valuesFor(f);
     std::vector<int> extras = c.hasData ? std::vector<int>{0, 5} : std::vector<int>{0};
-    for (int bg = 0; bg < 4; ++bg)
+    for (int bg = 0; bg < 5; ++bg)
         for (int extra : extras)
         {
+            if (bg == 4 && !c.consistent)
+                continue;
             if ((onlyBg >= 0 && bg != onlyBg) || (onlyExtra >= 0 && extra != onlyExtra))
                 continue;
             if (bg == 0 && extra != 0)
@@ -300,6 +304,22 @@ static void c12Field(W& w, const tbl::Cls<T>& c, size_t fi, bool single = false,
             if (r != e)
                 w.fail("layout:api-write-differs-from-wire-image:" + c.name + "::" + f.name,
                        ofmt("set%s(0x%llx) on an object built from image %s: raw bytes %s, the layout prescribes %s", f.name.c_str(), (unsigned long long) v, mc::hex(before).c_str(),
+                            mc::hex(r).c_str(), mc::hex(e).c_str()));
+            w.add(mc::C_TRANS, 1);
+        }
+        // (a'') ... and into the semantically consistent object of the class (valid LIN parity / checksum, DLC matching the length)
+        if (c.consistent)
+        {
+            T t = c.consistent(0);
+            Bytes before = c.raw(t);
+            f.set(t, v);
+            Bytes r = c.raw(t);
+            Bytes e = before;
+            if ((size_t) (f.off + f.width) <= e.size())
+                putField(e, f.off, f.width, f.shift, f.bits, v);
+            if (r != e)
+                w.fail("layout:api-write-differs-from-wire-image:" + c.name + "::" + f.name,
+                       ofmt("set%s(0x%llx) on a semantically consistent object %s: raw bytes %s, the layout prescribes %s", f.name.c_str(), (unsigned long long) v, mc::hex(before).c_str(),
                             mc::hex(r).c_str(), mc::hex(e).c_str()));
             w.add(mc::C_TRANS, 1);
         }
